@@ -300,7 +300,7 @@ Definition step0 (w : world) (o : op) : world * obs :=
       ({| st := s'; objs := new ++ objs w; next_pool := n'; clients := clients w; servers := servers w;
           next_srv := next_srv w; validated := validated w;
           (* pool.rs from_config (2ecc068): the pools that are no longer registered are resumed, whatever their flag *)
-          paused := paused w |}, ObReload r)
+          paused := match r with ROk true => filter (has_pool s') (paused w) | _ => paused w end |}, ObReload r)
   | OConnect c d u =>
       match cl_lookup c (clients w) with
       | Some _ => (w, ObNop)
